@@ -131,7 +131,7 @@ deriving DecidableEq, Repr
 /-- `radmsg2buf(msg, secret, secret_len, &buf)` -/
 def serialize (H : Hashes) (m : Msg) (secret : Option Bytes) : SerRes :=
   let size := 20 + (m.attrs.map fun a => 2 + a.v.length).sum
-  if size > 65535 then .fail
+  if size > maxLen then .fail
   else
     let buf0 := m.code :: m.id :: beEnc 2 size ++ m.auth ++ attrsBytes m.attrs
     match secret with
